@@ -47,7 +47,7 @@ PROPS["C17"] = dict(
 
 PROPS["C01"] = dict(
     level="proof",
-    modules=["contracts.c_number_theory"],
+    modules=["contracts.c_number_theory", "contracts.c_curve"],
     not_decided=[],
     assumptions=["p and n prime where a contract says so (the constructor's Fermat base-2 test is weaker)"],
     bounded=[],
@@ -134,7 +134,7 @@ PROPS["C19"] = dict(
 )
 PROPS["C04"] = dict(
     level="other",
-    modules=["contracts.c_taproot", "contracts.c_ssa", "contracts.c_dsa"],
+    modules=["contracts.c_taproot", "contracts.c_ssa", "contracts.c_dsa", "contracts.c_curve"],
     not_decided=["the C arm's results for all inputs: assumed; only the bounded differential below is checked"],
     assumptions=["btclib_secp256k1 (libsecp256k1 bindings) is trusted code outside the Python subset"],
     explanation="Every dual-path API under contract is run on both arms (set_libsecp256k1_serving True/False) over generated inputs (valid and malformed): both must satisfy the same contract and give the same value / the same exception class (arms.differ obligation). Bounded differential, labelled bounded; no proof about the C arm.",
